@@ -64,6 +64,7 @@ CONTROLS = {
          "        if (using_polytree_)\n        {\n          SetOwner(outrec, prevHotEdge->outrec);\n          outrec->is_open = false;\n        }", "CONFINE"),
     ],
     "C05": [
+        ("BuildPathD also discards short open pieces that are small", E, "    if (!isOpen && path.size() == 3 && IsVerySmallTriangle(*op2)) return false;\n    return true;", "    if (path.size() <= 3 && IsVerySmallTriangle(*op2)) return false;\n    return true;", "GUARD"),
         ("DoHorizontal trims every horizontal, open or closed", E, "      if (!IsOpen(*e)) TrimHorz(*e, preserve_collinear_);", "      TrimHorz(*e, preserve_collinear_);", "TRIM.closed-only"),
         ('AddPaths lets a closed path switch the open-path flag off', 'CPP/Clipper2Lib/src/clipper.engine.cpp', '    if (is_open) has_open_paths_ = true;', '    has_open_paths_ = is_open;', 'FLAG.sticky'),
         ("DoMaxima clears the other end's pointer", 'CPP/Clipper2Lib/src/clipper.engine.cpp', '          if (IsFront(e))\n            e.outrec->front_edge = nullptr;\n          else\n            e.outrec->back_edge = nullptr;\n          e.outrec = nullptr;\n        }\n        DeleteFromAEL(e);', '          if (IsFront(e))\n            e.outrec->back_edge = nullptr;\n          else\n            e.outrec->front_edge = nullptr;\n          e.outrec = nullptr;\n        }\n        DeleteFromAEL(e);', 'T.detach'),
@@ -117,6 +118,7 @@ CONTROLS = {
         ("closing vertex stripped for open end types too", O, "\tfor (Path64& p: paths_in)\n\t  StripDuplicates(p, is_joined);", "\tfor (Path64& p: paths_in)\n\t  StripDuplicates(p, true);", "GROUP.strip-closed"),
     ],
     "C08": [
+        ("the crossing marker is left at the current region", R, "          crossing_loc = crossing_prev; // still not crossed", "          crossing_loc = prev; // still not crossed", "CROSSING.latched"),
         ("the corner walk does not advance through start_locs_", R, "          AddCorner(prev, HeadingClockwise(prev, loc2));\n          prev = loc2;", "          AddCorner(prev, HeadingClockwise(prev, loc2));", "CORNER.chain"),
         ("a closing vertex on the boundary always starts the scan on its side", R, "      if (prev == Location::Inside) loc = Location::Inside;\n    }\n    Location starting_loc = loc;", "    }\n    Location starting_loc = loc;", "START.location"),
         ('from the Top region the left side is tried wherever p is', 'CPP/Clipper2Lib/src/clipper.rectclip.cpp', '      else if ((p.x < rectPath[0].x) && GetSegmentIntersection(p, p2, rectPath[0], rectPath[3], ip))', '      else if (GetSegmentIntersection(p, p2, rectPath[0], rectPath[3], ip))', 'T.nearest-crossing'),
@@ -130,6 +132,7 @@ CONTROLS = {
          "      for (OutPt2List &edge : edges_) edge.clear();\n    }\n    return result;", "LOOP"),
     ],
     "C09": [
+        ("the high-precision origin's x is taken from a y bound", H + "clipper.core.h", "      int64_t originx = (CC_MIN(bb0maxx, bb1maxx) + CC_MAX(bb0minx, bb1minx)) >> 1;", "      int64_t originx = (CC_MIN(bb0maxx, bb1maxx) + CC_MAX(bb0minx, bb1miny)) >> 1;", "AXIS.homogeneous"),
         ("a first vertex on the boundary always starts the line scan on its side", R, "      if (prev == Location::Inside) loc = Location::Inside;\n      i = 1;", "      i = 1;", "START.location"),
         ("a point's y is compared with the right side", 'CPP/Clipper2Lib/src/clipper.rectclip.cpp', '    else if (pt.y == rec.top && pt.x >= rec.left && pt.x <= rec.right)', '    else if (pt.y == rec.right && pt.x >= rec.left && pt.x <= rec.right)', 'T.location'),
         ('touching case of the second end point stores the first', 'CPP/Clipper2Lib/src/clipper.rectclip.cpp', '    else if (res2 == 0)\n    {\n      ip = p2;', '    else if (res2 == 0)\n    {\n      ip = p1;', 'POLY.intersect'),
@@ -141,6 +144,7 @@ CONTROLS = {
         ("results_ not cleared per polyline", R, "          result.emplace_back(std::move(tmp));\n      }\n      results_.clear();\n\n      op_container_ = std::deque<OutPt2>();", "          result.emplace_back(std::move(tmp));\n      }\n\n      op_container_ = std::deque<OutPt2>();", "CLEAN"),
     ],
     "C10": [
+        ("BuildPath64 looks at op->next before testing op", E, "  bool BuildPath64(OutPt* op, bool reverse, bool isOpen, Path64& path)\n  {\n    if (!op || op->next == op ||", "  bool BuildPath64(OutPt* op, bool reverse, bool isOpen, Path64& path)\n  {\n    if (op->next == op || !op ||", "GUARD"),
         ("CreateCPolyTree64 gives up after allocating", H + "clipper.export.h", "  int64_t* result = new int64_t[array_len];\n  int64_t* v = result;", "  int64_t* result = new int64_t[array_len];\n  if (array_len < 2) return nullptr;\n  int64_t* v = result;", "ALLOC.owned"),
         ('GetPrior scans down to and including its lower bound', 'CPP/Clipper2Lib/include/clipper2/clipper.h', '    while (current > 0 && flags[current]) --current;\n    if (!flags[current]) return current;', '    while (current >= high - high && flags[current]) --current;\n    if (!flags[current]) return current;', 'GUARD.unsigned-decrement'),
         ('transform destination sized by the other operand', 'CPP/Clipper2Lib/include/clipper2/clipper.minkowski.h', '          Path64 path2(pattern.size());\n          std::transform(pattern.cbegin(), pattern.cend(),\n            path2.begin(), [p](const Point64& pt2) {return p + pt2; });', '          Path64 path2(path.size());\n          std::transform(pattern.cbegin(), pattern.cend(),\n            path2.begin(), [p](const Point64& pt2) {return p + pt2; });', 'DEST.sized'),
